@@ -3,6 +3,7 @@ package main
 import (
 	"fmt"
 	"math/big"
+	"strings"
 	"sync/atomic"
 
 	"github.com/formancehq/ledger/internal/machine/script/compiler"
@@ -46,6 +47,58 @@ func allSrcAccounts(v nsgen.VSource) []string {
 	}
 	for _, s := range v.Srcs {
 		srcAccounts(s, &out)
+	}
+	return out
+}
+
+func srcExprs(s *nsgen.Source, out *[]*nsgen.Expr) {
+	switch s.K {
+	case nsgen.SAcc:
+		*out = append(*out, s.Acc)
+	case nsgen.SMax:
+		srcExprs(s.Sub, out)
+	case nsgen.SOrder:
+		for _, c := range s.List {
+			srcExprs(c, out)
+		}
+	}
+}
+
+func allSrcExprs(v nsgen.VSource) []*nsgen.Expr {
+	var out []*nsgen.Expr
+	if v.Src != nil {
+		srcExprs(v.Src, &out)
+	}
+	for _, s := range v.Srcs {
+		srcExprs(s, &out)
+	}
+	return out
+}
+
+// resolveAccounts: the account each source expression designates in this case ("" when it cannot be told)
+func resolveAccounts(c *nsCase, es []*nsgen.Expr) []string {
+	var out []string
+	for _, e := range es {
+		name := ""
+		switch e.K {
+		case nsgen.EAcc:
+			name = e.S
+		case nsgen.EVar:
+			for _, v := range c.P.Vars {
+				if v.Name != e.S {
+					continue
+				}
+				switch v.Origin {
+				case nsgen.OrNone:
+					name = strings.TrimPrefix(c.In.Vars[v.Name], "@")
+				case nsgen.OrMeta:
+					if v.OAcc != nil && v.OAcc.K == nsgen.EAcc {
+						name = strings.TrimPrefix(c.In.Meta[v.OAcc.S][v.OKey], "@")
+					}
+				}
+			}
+		}
+		out = append(out, name)
 	}
 	return out
 }
@@ -175,15 +228,18 @@ func c03() int {
 				}
 			}
 			if stm.Src.Src != nil && stm.Src.Src.K == nsgen.SOrder {
-				all := allSrcAccounts(stm.Src)
+				// accounts designated through a variable are resolved with the case's bindings: a variable bound to the
+				// capped account makes it occur twice (the cap then bounds only one of the occurrences)
+				all := resolveAccounts(c, allSrcExprs(stm.Src))
 				for _, sub := range stm.Src.Src.List {
 					if sub.K != nsgen.SMax {
 						continue
 					}
 					cap := litMon(sub.Max)
-					var as []string
-					srcAccounts(sub.Sub, &as)
-					ok := cap != nil
+					var subExprs []*nsgen.Expr
+					srcExprs(sub.Sub, &subExprs)
+					as := resolveAccounts(c, subExprs)
+					ok := cap != nil && count(all, "") == 0
 					for _, a := range as {
 						if a == "" || count(all, a) != 1 {
 							ok = false
